@@ -105,7 +105,7 @@ impl Hist {
     }
     /// a received byte string in window `w` ("rx1" | "rx2" | "rxc"); `hint` = counter it was built with
     pub fn rx_bytes(&mut self, w: &str, snr: i8, bytes: &[u8], hint: Option<u32>) -> &mut Self {
-        let view = view_of(bytes, &self.nwk, &self.app, &self.root, hint);
+        let view = view_of(bytes, Some(self.devaddr), &self.nwk, &self.app, &self.root, hint);
         let e = format!("{} {} {} {}", w, snr, hex(bytes), view);
         self.ev(&e)
     }
@@ -381,9 +381,111 @@ pub fn uplink_echo_history(suite: &str, rng: &mut Rng, region: &str, k: usize) -
     h.done()
 }
 
+/// builder Y — a DOWNLINK data frame ADDRESSED TO ANOTHER DEVICE but MIC'd and encrypted under THIS session's own
+/// keys (two ABP devices provisioned with the same keys, a network reusing a key): built by the independent reference
+/// encoder for DevAddr `devaddr` ± something (neighbouring address, one bit, one octet, NwkID part, byte-swapped) at
+/// the counter `last + 1` (0..2 for the first frame), i.e. a fresh counter, so that ONLY the address makes it invalid
+/// for the device.  It carries what a stack would react to if it took it for its own: MAC commands in FOpts, a small
+/// application payload, or port-0 commands (≤ 15 octets in all so that it fits every data rate); one in six is
+/// longer than small data rates allow (an oversized frame ends a Class A procedure whoever it is addressed to).
+pub fn other_devaddr_frame(rng: &mut Rng, devaddr: u32, nwk: &[u8; 16], app: &[u8; 16], region: &str, last: Option<u32>) -> (Vec<u8>, u32) {
+    let fcnt = match last {
+        Some(l) => l.wrapping_add(1),
+        None => rng.below(3) as u32,
+    };
+    let other = match rng.below(6) {
+        0 => devaddr.wrapping_add(1),
+        1 => devaddr.wrapping_sub(1),
+        2 => devaddr ^ (1u32 << rng.below(32)),
+        3 => devaddr ^ (0xffu32 << (8 * rng.below(4))),
+        4 => {
+            let s = devaddr.swap_bytes();
+            if s != devaddr { s } else { !devaddr }
+        }
+        _ => devaddr.wrapping_add(1 + (rng.next() as u32 % 0xffff_fffe)),
+    };
+    let mut d = DownDesc::new(other, fcnt);
+    d.nwk = *nwk;
+    d.app = *app;
+    d.confirmed = rng.chance(1, 2);
+    d.ack = rng.chance(1, 4);
+    match rng.below(4) {
+        0 => d.fopts = rx_timing_setup_req(1 + rng.below(14) as u8),
+        1 => d.fopts = some_cmds(rng, region, 3),
+        2 => {
+            d.fport = Some(0);
+            d.payload = dev_status_req();
+        }
+        _ => {
+            d.fport = Some(1 + rng.below(200) as u8);
+            d.payload = vec![0xad, 0xd7];
+        }
+    }
+    if rng.chance(1, 6) {
+        d.fopts = vec![];
+        d.fport = Some(1 + rng.below(200) as u8);
+        let n = *rng.pick(&[20usize, 60, 130, 238]);
+        d.payload = rng.bytes(n);
+    }
+    (d.build().expect("other-devaddr frame"), fcnt)
+}
+
+/// builder Y — histories around frames addressed to another device (class `other-devaddr`): a session (ABP, or
+/// restored with various counters), an uplink, then in window `w` (rx1 | rx2 | rxc after the procedure) one or two
+/// downlinks for another DevAddr under the session's own keys at the next fresh counter; a snapshot; then the
+/// authentic downlink for THIS device with that very counter (it must still be fresh: the foreign frame consumed
+/// nothing), a snapshot, and one more uplink.
+pub fn other_devaddr_history(suite: &str, rng: &mut Rng, region: &str, k: usize) -> String {
+    let mut h = Hist::new(suite, region, *rng.pick(&[14u8, 20]), 0, rng.next() & 0xffff, &[], None);
+    h.go_live();
+    match k % 4 {
+        0 => {
+            h.abp();
+        }
+        1 => {
+            h.sess(7 + rng.below(100) as u32, Some(rng.below(5) as u32), 0, false, &[], false);
+        }
+        2 => {
+            h.sess(0x1_0003, Some(0xfff0 + rng.below(8) as u32), 0, k % 8 == 2, &[], false);
+        }
+        _ => {
+            h.sess(20 + rng.below(40) as u32, None, 0, false, &[], false);
+        }
+    }
+    h.snap();
+    let w = ["rx1", "rx2", "rxc"][(k / 4) % 3];
+    let conf = k % 7 == 3;
+    h.send(1 + rng.below(200) as u8, conf, &[0xd0, k as u8]);
+    if w == "rxc" {
+        h.timeout();
+    }
+    for _ in 0..(1 + k % 2) {
+        if !h.dead {
+            let (b, f) = other_devaddr_frame(rng, h.devaddr, &h.nwk, &h.app, region, h.last_down);
+            h.rx_bytes(w, rng.range(-10, 10) as i8, &b, Some(f));
+        }
+    }
+    h.snap();
+    if !h.dead {
+        // the authentic downlink at the next fresh counter is still accepted (if the procedure is still open: an
+        // oversized foreign frame may have ended it — then this is a frame outside any window / in RXC)
+        let w2 = if w == "rx1" { "rx2" } else { w };
+        h.rx_auth(w2, 2, 1, false, &rx_timing_setup_req(5), None, &[]);
+        h.snap();
+        h.send(2, false, &[0xd1]).timeout().snap();
+    }
+    h.done()
+}
+
 pub fn rejected_frame(rng: &mut Rng, h: &Hist) -> (Vec<u8>, Option<u32>, &'static str) {
     let last = h.last_down;
-    match rng.below(11) {
+    match rng.below(12) {
+        11 => {
+            // builder Y — a downlink addressed to another DevAddr under this session's OWN keys at the next fresh
+            // counter: only the address makes it invalid
+            let (b, f) = other_devaddr_frame(rng, h.devaddr, &h.nwk, &h.app, &h.region, last);
+            (b, Some(f), "rej-other-devaddr")
+        }
         10 => {
             // builder X — an uplink-typed frame of this session: the device's own last uplink echoed back octet
             // for octet, or one rebuilt at the next fresh downlink counter (Dir = 0 MIC under the session key):
